@@ -87,8 +87,13 @@ def check(ctx: Ctx) -> None:
     num = model.fi(TOK, "Tokenizer.number")
     number_sets: List[str] = []
     accepts: List[str] = []
-    for n in walk_ordered(num.node):
-        if isinstance(n, ast.Compare) and isinstance(n.ops[0], ast.In) and isinstance(n.comparators[0], ast.Constant) \
+    num_nodes = list(walk_ordered(num.node))
+    for c_ in calls_in(num.node):
+        q_ = model.resolve_call(num, c_)
+        if q_ and q_ in model.funcs and model.funcs[q_].module == TOK and q_ != num.qname and model.funcs[q_].node.name not in ("peek", "pop", "consume", "push", "accept"):
+            num_nodes += list(walk_ordered(model.funcs[q_].node))  # scanning helpers of number()
+    for n in num_nodes:
+        if isinstance(n, ast.Compare) and isinstance(n.ops[0], (ast.In, ast.NotIn)) and isinstance(n.comparators[0], ast.Constant) \
                 and isinstance(n.comparators[0].value, str):
             number_sets.append(n.comparators[0].value)
         if isinstance(n, ast.Call) and dotted(n.func) == "self.accept" and n.args and isinstance(n.args[0], ast.Constant):
